@@ -237,6 +237,48 @@ func c16Raw(emit func(c16Case)) {
 	}
 }
 
+// c16RawDiffer: pairs that differ at an UNMASKED place only (white space that is content): they must not pass against each other.
+func c16RawDiffer(emit func(c16Case)) {
+	for _, p := range [][3]string{
+		{"id: 1\nnotes: |\n  first line  \n  second\n", "id: 2\nnotes: |\n  first line\n  second\n", "$.id"},
+		{"id: 1\nnotes: |\n  first\t\n  second\n", "id: 1\nnotes: |\n  first\n  second\n", "$.id"},
+		{"id: 1\nnotes: \"a  \"\n", "id: 1\nnotes: \"a\"\n", "$.id"},
+		{"id: 1\nnotes: |\n  x\n\n  y\n", "id: 1\nnotes: |\n  x\n  y\n", "$.id"},
+	} {
+		for _, kind := range []string{"rawdiffer-any", "rawdiffer-none"} {
+			emit(c16Case{API: "yaml", Kind: kind, Text: p[0], Alt: p[1], Path: p[2], Doc: -1})
+		}
+	}
+}
+
+func c16RunRawDiffer(c *vfCtx, cs c16Case) {
+	c.addSet("nontrivial", vfHashJSON(cs))
+	dir := c.newWorld()
+	vfResetState(false, "", true)
+	var ym []match.YAMLMatcher
+	if cs.Kind == "rawdiffer-any" {
+		ym = append(ym, match.Any(cs.Path))
+	}
+	cfg := WithConfig(Dir(dir), Filename("f"), Update(false))
+	t := &vfT{name: "TestA"}
+	WithConfig(Dir(dir), Filename("f")).MatchYAML(t, cs.Text, ym...)
+	t.end()
+	if len(t.errs) > 0 {
+		c.harnessErr("C16 rawdiffer: recording failed: %v", t.errs)
+		return
+	}
+	vfResetState(false, "", true)
+	t2 := &vfT{name: "TestA"}
+	cfg.MatchYAML(t2, cs.Alt, ym...)
+	t2.end()
+	c.count("transitions", 2)
+	c.addSet("states", vfHash(cs.Text, cs.Alt, t2.outcome(vfMark{})))
+	c.outcome("raw-unmasked-variant:" + t2.outcome(vfMark{}))
+	if o := t2.outcome(vfMark{}); o != "failed" {
+		c.violation("", fmt.Sprintf("the two documents differ at a place the matchers do not cover (white space inside a value): %q vs %q; the second one signals %s against the first one's snapshot", vfClip(cs.Text), vfClip(cs.Alt), o), cs)
+	}
+}
+
 func c16RunRaw(c *vfCtx, cs c16Case) {
 	c.addSet("nontrivial", vfHashJSON(cs))
 	optional := strings.HasSuffix(cs.Kind, "-optional")
@@ -307,7 +349,8 @@ func c16SameTypeAlts(v *vfJ) []*vfJ {
 	case v.IsArr:
 		return []*vfJ{vfJA(vfJS(`9`)), vfJA()}
 	case strings.HasPrefix(v.Scalar, `"`):
-		return []*vfJ{vfJS(`"other"`), vfJS(`""`), vfJS(`"a much longer string than the original value was"`), vfJS(`"é «x»"`)}
+		// incl. strings that read like the library's own placeholders (they are ordinary values of the masked field)
+		return []*vfJ{vfJS(`"other"`), vfJS(`""`), vfJS(`"a much longer string than the original value was"`), vfJS(`"é «x»"`), vfJS(`"<Any value>"`), vfJS(`"<Type:string>"`), vfJS(`"<Type:float64>"`)}
 	case v.Scalar == "true" || v.Scalar == "false":
 		return []*vfJ{vfJS(`true`), vfJS(`false`)}
 	case v.Scalar == "null":
@@ -322,6 +365,10 @@ func c16AnyAlts(v *vfJ) []*vfJ {
 }
 
 func c16Run(c *vfCtx, cs c16Case) {
+	if strings.HasPrefix(cs.Kind, "rawdiffer") {
+		c16RunRawDiffer(c, cs)
+		return
+	}
 	if strings.HasPrefix(cs.Kind, "raw") {
 		c16RunRaw(c, cs)
 		return
@@ -573,5 +620,6 @@ func init() {
 			"every masked value replaced by each alternative the matcher accepts (other scalar/length/kind), every unmasked leaf replaced by different values incl. numbers equal as float64 but different as text"
 		c16Gen(c, emit)
 		c16Raw(emit)
+		c16RawDiffer(emit)
 	}, c16Run)
 }
